@@ -966,9 +966,14 @@ def c07e(chk):
         # the buffer may be handed on by value (returned from a helper as Ok(raw) and unwrapped with `?`): every local the same
         # vector is moved into counts as the buffer
         aliases = {l for l in range(len(r.locals)) if raw is not None and an.origin_local(r, l) == raw} | ({raw} if raw is not None else set())
-        full = [t for b, t in r.calls() if callee_is(t["callee"], N.INDEX) and "RangeFull" in " ".join(t["callee"].get("args", []))]
-        chk.ob("C07.e", "read::Builder::read/whole-input-then-detect", len(rte) == 2 and same and bool(det) and len(full) >= 1, r.loc(),
-               "both transports read_to_end into one buffer; detection and parsing see the complete slice")
+        # the readers get (a view of) that whole buffer: `&raw[..]` or `&raw` coerced to a slice
+        fed = []
+        for b, t in r.calls():
+            if callee_is(t["callee"], TEXT + "read_scs", "sfs_core::array::Array::<f64>::read_npy"):
+                sl_, info_ = r.slice_locals(t["args"][0])
+                fed.append(bool(aliases & sl_))
+        chk.ob("C07.e", "read::Builder::read/whole-input-then-detect", len(rte) == 2 and same and bool(det) and len(fed) == 2 and all(fed), r.loc(),
+               "both transports read_to_end into one buffer; detection and both readers see that complete buffer (readers fed by it: %s)" % fed)
         # nothing else touches the buffer between reading and parsing (no trimming, truncation, sub-slicing)
         touch = []
         if raw is not None:
@@ -1150,8 +1155,8 @@ def c16c(chk):
         chk.ob("C16.c", "read_array/Array::new(values, declared-shape)", ok, ra.loc(), "the decoded values and the declared shape go through the checked constructor")
     ps = chk.fn(TEXT + "parse_scs")
     if ps is not None or True:
-        cl = [c for c in prog.closures_of(TEXT + "parse_scs")]
-        ok = any(len(an.calls(c, "sfs_core::spectrum::Spectrum::<sfs_core::spectrum::Counts>::new")) == 1 for c in cl)
+        unit_ = ([ps] + prog.closures_of(ps.path)) if ps is not None else []
+        ok = sum(len(an.calls(c, "sfs_core::spectrum::Spectrum::<sfs_core::spectrum::Counts>::new")) for c in unit_) == 1
         chk.ob("C16.c", "parse_scs/Scs::new(values, declared-shape)", ok, ps.loc() if ps else "", "text values and the header's shape go through the checked constructor")
     sn = chk.fn("sfs_core::spectrum::Spectrum::<sfs_core::spectrum::Counts>::new")
     if sn is not None:
@@ -1195,23 +1200,42 @@ def c16c(chk):
 
 
 def c16d(chk):
-    ps = chk.fn(TEXT + "parse_scs")
+    import iters as IT
+    prog = chk.prog
+    ps = chk.fn(TEXT + "parse_scs")        # (the function it was merged into, when it no longer exists on its own)
     if ps is None:
         return
-    coll = [(b, t) for b, t in ps.calls() if callee_is(t["callee"], N.COLLECT)]
+    coll = [(b, t) for b, t in ps.calls() if callee_is(t["callee"], N.COLLECT) and "alloc::vec::Vec<f64>" in " ".join(t["callee"].get("args", []))]
     ok = False
     adapt = None
+    src = None
     if len(coll) == 1:
-        sl, info = ps.slice_locals(coll[0][1]["args"][0])
-        adapt = sorted((x[1]["callee"].get("path") or "").split("::")[-1] for x in info["calls"])
+        ch = IT.receiver_chain(ps, coll[0][1]["args"][0])
+        adapt = IT.chain_names(ch)
+        src = ch[-1][1]
         ty = " ".join(coll[0][1]["callee"].get("args", []))
         ok = adapt == ["map", "split_ascii_whitespace"] and "core::result::Result<alloc::vec::Vec<f64>" in ty
     chk.ob("C16.d", "parse_scs/all-tokens-collected", ok, ps.loc(), "every whitespace-separated token is parsed and collected (adaptors %s); a bad token fails the whole read" % adapt)
     rs = chk.fn(TEXT + "read_scs")
     if rs is not None:
         r2s = an.calls(rs, "std::io::Read::read_to_string")
-        ok = len(r2s) == 1 and an.try_branch_of(rs, r2s[0][0]) is not None and len(an.calls(rs, TEXT + "parse_scs")) == 1
-        chk.ob("C16.d", "read_scs/whole-body-read", ok, rs.loc(), "the body is read to the end (read_to_string?) before parsing")
+        ok = len(r2s) == 1 and an.try_branch_of(rs, r2s[0][0]) is not None
+        buf = an.arg_pointee(rs, r2s[0][1], 1) if len(r2s) == 1 else None
+        parsed = False
+        if ok and buf is not None:
+            pc = an.calls(rs, TEXT + "parse_scs")
+            if len(pc) == 1 and rs is not ps:
+                tgt = an.arg_pointee(rs, pc[0][1], 0)
+                d0 = None
+                if tgt is None:
+                    sl, info = rs.slice_locals(pc[0][1]["args"][0])
+                    parsed = buf[0] in sl
+                else:
+                    parsed = tgt[0] == buf[0] or buf[0] in rs.slice_locals(pc[0][1]["args"][0])[0]
+            elif rs is ps and src is not None:
+                # the parser was merged into read_scs: the tokens are split off the buffer that was read
+                parsed = src[0] == buf[0] or buf[0] in rs.slice_locals(src[0])[0]
+        chk.ob("C16.d", "read_scs/whole-body-read", ok and parsed, rs.loc(), "the body is read to the end (read_to_string?) and that buffer is what is parsed (read to the end and propagated=%s, parsed buffer is the one read=%s)" % (ok, parsed))
 
 
 def c16e(chk):
@@ -1236,7 +1260,21 @@ def c16e(chk):
         its = IT.iterations(prog, ws)
         unit = [ws] + prog.closures_of(ws.path)
         calc = [(g, b, t) for g in unit for b, t in an.calls(g, "sfs::stat::Statistic::calculate")]
-        wd = an.calls(ws, "sfs::stat::runner::Runner::<W>::write_with_delimiter")
+        wd_all = an.calls(ws, "sfs::stat::runner::Runner::<W>::write_with_delimiter")
+        # the row write is the one whose items derive from the computed statistics (a header line written before them is not a row)
+        def fed_by_calculate(t_):
+            sl_, info_ = ws.slice_locals(t_["args"][1]) if len(t_["args"]) > 1 else (set(), {"calls": []})
+            names_ = [callee_name(x[1]["callee"]) for x in info_["calls"]]
+            if any(n_.endswith("Statistic::calculate") for n_ in names_):
+                return True
+            for x in info_["calls"]:
+                for a_ in x[1]["args"]:
+                    cp_ = an.closure_of_operand(ws, a_)
+                    g_ = prog.fn(cp_) if cp_ else None
+                    if g_ is not None and an.calls(g_, "sfs::stat::Statistic::calculate"):
+                        return True
+            return False
+        wd = [x for x in wd_all if fed_by_calculate(x[1])] if len(wd_all) > 1 else wd_all
         other_writes = [(g.path, callee_name(t["callee"])) for g in unit for b, t in g.calls() if callee_name(t["callee"]).startswith(("std::io::Write::", "std::io::stdio::"))]
         ok = False
         why = "expected one calculate call, one write_with_delimiter call and no other write"
@@ -1275,7 +1313,7 @@ def c16e(chk):
                     d = an.call_dest_local(nxt[0][1])
                 return d == 0
             if it is not None and oc is None and it.kind == "closure" and it.consumer == "map" and returned_through_result_combinators(g, cb):
-                coll = [(b_, t_) for b_, t_ in ws.calls() if callee_is(t_["callee"], N.COLLECT)]
+                coll = [(b_, t_) for b_, t_ in ws.calls() if callee_is(t_["callee"], N.COLLECT) and IT.chain_get(IT.receiver_chain(ws, t_["args"][0]), "map") is it.term]
                 col_ok = False
                 if len(coll) == 1:
                     ch = IT.receiver_chain(ws, coll[0][1]["args"][0])
@@ -1300,7 +1338,7 @@ def c16e(chk):
                 after_bad = g.reachable_from(bad)
                 ok_aggs = [b_ for b_, i_, p_, rv, s_ in g.assigns() if p_[0] == 0 and rv["k"] == "aggregate" and rv.get("variant") == "Ok"]
                 err_kept = bool(ok_aggs) and not any(b_ in after_bad for b_ in ok_aggs)
-                coll = [(b_, t_) for b_, t_ in ws.calls() if callee_is(t_["callee"], N.COLLECT)]
+                coll = [(b_, t_) for b_, t_ in ws.calls() if callee_is(t_["callee"], N.COLLECT) and IT.chain_get(IT.receiver_chain(ws, t_["args"][0]), "map") is it.term]
                 col_ok = False
                 if len(coll) == 1 and it.consumer == "map":
                     ch = IT.receiver_chain(ws, coll[0][1]["args"][0])
